@@ -437,20 +437,29 @@ def r4_mask(cx, rule="R4"):
         s, t, cmp_rv = found
         false_t = t["targets"][t["vals"].index(0)] if 0 in t["vals"] else None
         true_t = t["otherwise"]
-        only_false = false_t is not None and b.set_dominates({false_t}, fi) and fi not in b.reachable(true_t, avoid={s})
+        # path-sensitive (the arm may only compute a (limit, masked) pair that a common tail acts on)
+        only_false = false_t is not None and (b.set_dominates({false_t}, fi) or fi not in b.explore(avoid={false_t})[0]) \
+            and (fi not in b.reachable(true_t, avoid={s}) or fi not in b.explore(start=true_t, avoid={s})[0])
         # local_offset = (.. ) % PACK_INFO_SIZE
         lo = op_local(cmp_rv["a"])
         rem_ok = _defined_by_bin(b, lo, "Rem", c_size["val"])
-        # bound of the read on the masked arm derives from SIZE - local_offset
-        idx = [i for i, tt in b.calls(r"index_mut") if b.dominates(false_t, i) and b.dominates(i, fi)]
+        r_false, r_true = b.reachable(false_t, avoid={s}), b.reachable(true_t, avoid={s})
+        only_f, only_t = r_false - r_true, r_true - r_false
+        everything = set(range(b.n))
+        # bound of the read on the masked arm derives from SIZE - local_offset (definitions of the other arm left out)
         bound_ok = False
-        for i in idx:
-            o = b.origins(b.term(i)["args"][1])
-            if ("const", c_size["val"]) in o and ("const", c_check["val"]) not in o:
-                bound_ok = True
+        for i, tt in b.calls(r"index_mut"):
+            if i in r_false and (b.dominates(i, fi) or i in only_f):
+                o = b.origins(tt["args"][1], blocks=everything - only_t)
+                if ("const", c_size["val"]) in o and ("const", c_check["val"]) not in o:
+                    bound_ok = True
         # pass-through arm bound derives from TO_CHECK - local_offset
-        idx2 = [i for i, tt in b.calls(r"index_mut") if i in b.reachable(true_t, avoid={s}) and not b.dominates(false_t, i)]
-        pass_ok = any(("const", c_check["val"]) in b.origins(b.term(i)["args"][1]) for i in idx2)
+        pass_ok = False
+        for i, tt in b.calls(r"index_mut"):
+            if i in r_true:
+                o = b.origins(tt["args"][1], blocks=everything - only_f)
+                if ("const", c_check["val"]) in o:
+                    pass_ok = True
         ok = zero and only_false and rem_ok and bound_ok and pass_ok
         msg = "fill(0) only on the arm local_offset >= TO_CHECK: %s; local_offset = x %% PACK_INFO_SIZE: %s; masked read bounded by SIZE - local_offset: %s; checked read bounded by TO_CHECK - local_offset: %s; fills zero: %s" % (only_false, rem_ok, bound_ok, pass_ok, zero)
     cx.ob(rule, rule + "/zero-range", ok, f, msg, ln=ft.get("ln"))
